@@ -128,6 +128,10 @@ func applyFault(fd *FakeDocker, inv []CSpec, f c14Fault) func() bool {
 	case "list":
 		fd.ListErr = c14OpenErrs[(f.At+f.Container)%len(c14OpenErrs)]
 		return func() bool { _, _, fired, _ := fd.Ledger(); return fired > 0 }
+	case "list-later":
+		// the first listing of the query succeeds, a later one (the second selection's) fails
+		fd.ListErr, fd.ListErrFrom = c14OpenErrs[(f.At+f.Container)%len(c14OpenErrs)], 2
+		return func() bool { _, _, fired, _ := fd.Ledger(); return fired > 0 }
 	case "open":
 		fd.Containers[f.Container].LogsErr = c14OpenErrs[(f.At+f.Container)%len(c14OpenErrs)]
 		return func() bool { _, _, fired, _ := fd.Ledger(); return fired > 0 }
@@ -271,7 +275,7 @@ func runC14(r *vk.Run) {
 			runOne(c, inv, sh, nil, &baseline)
 			c.Seen("shapes", sh.Name)
 			var faults []c14Fault
-			faults = append(faults, c14Fault{Kind: "list", At: c.Idx})
+			faults = append(faults, c14Fault{Kind: "list", At: c.Idx}, c14Fault{Kind: "list-later", At: c.Idx})
 			for i := range inv {
 				// every class of daemon error
 				for cls := range c14OpenErrs {
